@@ -1130,10 +1130,14 @@ func (r *runner) wnew(f []string) string {
 	if !ok || !ok2 || !ok3 || n == 0 || n > maxShards || u > 64 {
 		return "bad-op"
 	}
-	xhash, mixed := false, false
+	xhash, mixed, noOpts := false, false, false
 	route := make([]int, u)
 	switch {
-	case f[5] == "mod" && len(f) == 6:
+	case (f[5] == "mod" || f[5] == "dmod") && len(f) == 6:
+		if f[5] == "dmod" && n != 73 {
+			return "bad-op"
+		}
+		noOpts = f[5] == "dmod"
 		for k := range route {
 			route[k] = k % n
 		}
@@ -1165,6 +1169,11 @@ func (r *runner) wnew(f []string) string {
 	r.recency = map[int][]int{}
 	opt := remap.WithPrime(uint64(n))
 	switch {
+	case noOpts && r.tiny:
+		// built without any option: must come out with remap's default 73 shards, whoever used WithPrime before in this process
+		r.w = wideTiny{tiny.NeWideLRU(c), false}
+	case noOpts:
+		r.w = wideSized{cache.NeWideLRUCache(c), false}
 	case r.tiny && xhash:
 		r.w = wideTiny{tiny.NewWideXHashLRU(c, opt), mixed}
 	case r.tiny:
